@@ -15,9 +15,10 @@ from ..defs_common import FAM, run_impl, native_names
 from ..defs_reg_common import regen_cone
 
 THEOREMS = [
-    "C13_depends_only", "C13_raw_shapes", "C13_injective_partial", "C13_injective_refuted", "C13_every_edit_changes_text",
-    "C13_reordering_changes_text", "C13_signal_message_struct_differ", "C13_hex_case_all_nibbles", "C13_same_everywhere",
-    "C13_sha256_vectors", "C13_ex_wf", "C13_ex_struct_reuse",
+    "C13_depends_only", "C13_raw_shapes", "C13_wf_excludes_reserved_field_names", "C13_injective",
+    "C13_every_edit_changes_text", "C13_reordering_changes_text", "C13_signal_message_struct_differ",
+    "C13_hex_case_all_nibbles", "C13_same_everywhere", "C13_sha256_vectors", "C13_ex_wf", "C13_ex_struct_reuse",
+    "C13_ex_former_lookalike",
 ]
 
 HEADER = """From Coq Require Import ZArith NArith List Bool String Ascii.
@@ -263,9 +264,22 @@ def check_client_source() -> List[str]:
         return out
     if "send_message" in fns and version_assigns(fns["send_message"]) != ["header.version = msg_data.type_hash"]:
         errs.append(f"send_message stamps: {version_assigns(fns['send_message'])}")
-    for f in ("send_signal", "forward_message"):
-        if f in fns and version_assigns(fns[f]):
-            errs.append(f"{f} now assigns a version: {version_assigns(fns[f])} (model statement out of date)")
+    if "send_signal" in fns:
+        va = version_assigns(fns["send_signal"])
+        if va != ["header.version = get_msg_cls(signal_type).type_hash"]:
+            errs.append(f"send_signal stamps: {va}")
+        tr = [n for n in ast.walk(fns["send_signal"]) if isinstance(n, ast.Try)
+              and any(ast.unparse(b) == "header.version = get_msg_cls(signal_type).type_hash" for b in n.body)]
+        if len(tr) != 1 or len(tr[0].handlers) != 1 or ast.unparse(tr[0].handlers[0].type) != "(UnknownMessageType, AttributeError)" \
+                or [ast.unparse(b) for b in tr[0].handlers[0].body] != ["pass"]:
+            errs.append("send_signal: the stamp is no longer `try: ... except (UnknownMessageType, AttributeError): pass`")
+        else:
+            src = ast.unparse(fns["send_signal"])
+            if src.index("header.reserved = 0") > src.index("header.version = get_msg_cls") or \
+                    src.index("header.version = get_msg_cls") > src.index("self._sendall(header)"):
+                errs.append("send_signal: the stamp is not between the header initialisation and the send")
+    if "forward_message" in fns and version_assigns(fns["forward_message"]):
+        errs.append(f"forward_message now assigns a version: {version_assigns(fns['forward_message'])} (statement out of date)")
     hdr = ast.parse((SRC / "pyrtma" / "header.py").read_text())
     src = ast.unparse(hdr)
     if "def version(self, value: int):\n        self.reserved = value" not in src:
@@ -360,14 +374,28 @@ def run(chk: Check):
             ecases.append(dict(files={"root.yaml": yaml_file(consts=consts, aliases=aliases, structs=structs, msgs=[d])},
                                root="root.yaml", import_coredefs=False, auto_pad=True, validate_alignment=True))
             emeta.append((b, tag, d))
-    # the one shape where two different definitions give the same text
-    for kind in ("message",):
-        a = dict(kind=kind, name="LOOKALIKE", id=77, fields=None, reuse="S_PT")
-        bdef = dict(kind=kind, name="LOOKALIKE", id=77, fields=[("fields", "S_PT")], reuse=None)
-        for tag, d in (("base", a), ("reuse->field-named-fields", bdef)):
-            ecases.append(dict(files={"root.yaml": yaml_file(consts=consts, aliases=aliases, structs=structs, msgs=[d])},
-                               root="root.yaml", import_coredefs=False, auto_pad=True, validate_alignment=True))
-            emeta.append((10 ** 6, tag, d))
+    # `fields: OTHER` against a single field called `fields` of type OTHER: the same text; the second spelling
+    # must not be an accepted definition (for messages and for structs)
+    a = dict(kind="message", name="LOOKALIKE", id=77, fields=None, reuse="S_PT")
+    ecases.append(dict(files={"root.yaml": yaml_file(consts=consts, aliases=aliases, structs=structs, msgs=[a])},
+                       root="root.yaml", import_coredefs=False, auto_pad=True, validate_alignment=True))
+    emeta.append((10 ** 6, "base", a))
+    lk = [dict(kind="message", name="LOOKALIKE", id=77, fields=[("fields", "S_PT")], reuse=None),
+          dict(kind="message", name="LOOKALIKE2", id=78, fields=[("x", "int32"), ("fields", "double")], reuse=None),
+          dict(kind="struct", name="LOOKALIKE_S", id=None, fields=[("fields", "S_PT")], reuse=None)]
+    lres = run_impl([dict(files={"root.yaml": yaml_file(consts=consts, aliases=aliases,
+                                                         structs=structs + ([d] if d["kind"] == "struct" else []),
+                                                         msgs=[d] if d["kind"] != "struct" else [])},
+                          root="root.yaml", import_coredefs=False, auto_pad=True, validate_alignment=True) for d in lk])
+    for d, res in zip(lk, lres):
+        dist["field-named-fields"] = dist.get("field-named-fields", 0) + 1
+        nontrivial.add(("lookalike", d["name"]))
+        if res["ok"]:
+            chk.spec_failure("hash-unchanged:reuse->field-named-fields",
+                             f"{d['name']}: a field called `fields` is accepted; its text coincides with that of `fields: {d['fields'][-1][1]}`",
+                             dict(edited=d))
+        elif res["exc"] != "RTMASyntaxError":
+            chk.spec_failure("field-named-fields:wrong-error", f"{d['name']}: {res['exc']}: {res['msg'][:100]}", dict(edited=d))
     eres = run_impl(ecases)
     base_hash: Dict[int, Tuple[str, dict]] = {}
     for (b, tag, d), res in zip(emeta, eres):
@@ -486,7 +514,8 @@ def run(chk: Check):
     cm = [gen_message(rng, natives, name="CliMsg%d" % j, mid=5000 + j) for j in range(6 if thorough else 3)]
     cs = [dict(kind="signal", name="CliSig%d" % j, id=5100 + j, fields=None, reuse=None) for j in range(2)]
     ccase = dict(files={"root.yaml": yaml_file(consts=consts, aliases=aliases, structs=structs, msgs=cm + cs)},
-                 root="root.yaml", messages=[m["name"] for m in cm], signals=[s["name"] for s in cs])
+                 root="root.yaml", messages=[m["name"] for m in cm], signals=[s["name"] for s in cs],
+                 undefined_ids=[5999, 9876])
     p = subprocess.run([PY, str(VERIF / "vlib" / "defs_client_worker.py")], input=json.dumps([ccase]), capture_output=True,
                        text=True, env=impl_env(), timeout=600, cwd="/")
     frames = []
@@ -499,6 +528,11 @@ def run(chk: Check):
         frames = r["frames"]
     for f in frames:
         want = int(f["parser_hash"][:8], 16)
+        if f["path"] == "send_signal:undefined-type":
+            dist["frame:" + f["path"]] = dist.get("frame:" + f["path"], 0) + 1
+            if f["version"] != 0:
+                chk.spec_failure("send_signal-undefined-type-version", f"id {f['name']}: version {f['version']:#x}", f)
+            continue
         dist["frame:" + f["path"]] = dist.get("frame:" + f["path"], 0) + 1
         nontrivial.add(("frame", f["path"], f["name"]))
         if f["type_hash"] != want:
@@ -543,8 +577,9 @@ def run(chk: Check):
         "textwrap.dedent of CPython 3.12 as modelled in Model/HashText.v (validated by the correspondence, incl. the struct `fields: OTHER` shape)",
         "a message's hash covers the type TEXT of its fields: changing the body of a nested struct or alias does not change the "
         "hash of a message that names it (this is what the property states: 'field names with their type texts')",
-        "header.version is written by send_message only; send_signal leaves 0 and forward_message sends the header it is given "
-        "(checked structurally in client.py and on captured frames)",
+        "header.version: send_message writes the type_hash of the message object; send_signal writes the type_hash of the definition "
+        "registered for the signal type, for every DEFINED type - an id without a registered definition keeps version 0; "
+        "forward_message sends the header it is given (checked structurally in client.py and on captured frames; not a Coq theorem)",
     ]
     for b in bad[:3]:
         if b >= 0:
